@@ -17,6 +17,6 @@ Property that the code is supposed to satisfy ({pid}: {p['title']}):
 Scope of the quantifier: {p['quantifier']['text']}
 Code involved: {', '.join(p['anchors']['files'])}
 
-{'An earlier reviewer already tried simple slips in the most obvious function of this code; look for something SUBTLER or ELSEWHERE: an interaction between two functions or classes, an error or edge path, state carried across calls or across restarts, a helper or a less central file from the list above, or a caller that feeds the central code. ' if rnd > 1 else ''}Task: produce TWO different, realistic changes to the project's source (the kind of slip a maintainer could make in a refactor, clean-up or 'optimisation' — not sabotage with magic constants), each of which BREAKS this property while the code still imports and the project's existing test suite still passes. Ask for changes that need something specific to manifest — a particular interleaving, a fault at a particular point, a multi-step sequence of operations, an unusual input, or two cooperating sites that each look fine alone — NOT ones that ordinary use would expose at once. To check the existing tests run the test files of the packages you touched inside a private network namespace (other people on this machine use the same fixed ports), e.g. `unshare -n sh -c 'ip link set lo up; cd {wt} && /venv/bin/python -m pytest -q -p no:cacheprovider --timeout=600 ioflo/base'` (or ioflo/aid, ioflo/aio/http, ioflo/aio/tcp, ioflo/aio/proto ...); tests named testTcpClientServer*, testTLSConnectionVerifyNeither, testTLSConnectionVerifyBothTLSv1 fail on the unmodified code too and do not count.
+{'An earlier reviewer already tried simple slips in the most obvious function of this code; look for something SUBTLER or ELSEWHERE: an interaction between two functions or classes, an error or edge path, state carried across calls or across restarts, a helper or a less central file from the list above, or a caller that feeds the central code. ' if rnd == 2 else ('Two earlier reviewers already tried (a) simple slips in the most obvious function and (b) interactions between two functions, error paths and state carried across calls. Look for what is left: behaviour under unusual but legal CONFIGURATIONS or constructor arguments, alternative entry points and subclasses that share the code, ordering assumptions between independent components, resource re-use after close/stop/restart, values at type boundaries (empty, zero, None, negative, very large, non-ASCII), and defaults that differ between sibling classes. ' if rnd > 2 else '')}Task: produce TWO different, realistic changes to the project's source (the kind of slip a maintainer could make in a refactor, clean-up or 'optimisation' — not sabotage with magic constants), each of which BREAKS this property while the code still imports and the project's existing test suite still passes. Ask for changes that need something specific to manifest — a particular interleaving, a fault at a particular point, a multi-step sequence of operations, an unusual input, or two cooperating sites that each look fine alone — NOT ones that ordinary use would expose at once. To check the existing tests run the test files of the packages you touched inside a private network namespace (other people on this machine use the same fixed ports), e.g. `unshare -n sh -c 'ip link set lo up; cd {wt} && /venv/bin/python -m pytest -q -p no:cacheprovider --timeout=600 ioflo/base'` (or ioflo/aid, ioflo/aio/http, ioflo/aio/tcp, ioflo/aio/proto ...); tests named testTcpClientServer*, testTLSConnectionVerifyNeither, testTLSConnectionVerifyBothTLSv1 fail on the unmodified code too and do not count.
 
 For each change i in {{{first},{first+1}}} write into /tmp/seed{tagr}-{pid}-out/<i>/: `patch.diff` (output of `git diff` in the worktree for that change alone), `demo.py` (a small program that exits 0 on the original code and non-zero on the changed code, printing what differs; it must take the checkout path as argv[1] and insert it at the front of sys.path before importing ioflo), and `meta.json` with keys "property": "{pid}", "summary", "needs_to_manifest" (what specific input/sequence/condition exposes it), "files_changed". Verify yourself: demo exits 0 on the unmodified worktree (`git checkout -- .`), non-zero with the patch applied, and the relevant tests pass with the patch applied. Never use `git stash` (stashes are shared between worktrees of other people); use `git diff > file`, `git checkout -- .` and `git apply file`. Leave the worktree clean (`git checkout -- .`) at the end. Final message: a two-line summary per change.""")
